@@ -12,7 +12,7 @@ import pathlib
 import common
 
 BASES = "ACGT"
-RULE = ("random DNA strands built by the real parsers (fasta / ig linear / ig circular / monomer list), "
+RULE = ("random DNA strands built by the real parsers (fasta / ig linear / ig circular / monomer list / json with node keys starting at 0, 1, 4, 7; keys are normalised to start at 0 before comparing), "
         "length 1..12 quick, up to 200 thorough, random edge attribute dicts; plus a malformed stream with "
         "one unknown residue name; a case is non-trivial when n >= 2; distinct = (kind, sequence, labels)")
 
@@ -54,6 +54,26 @@ def build_strand(kind, letters, tmpdir):
             names[0] += "5"
             names[-1] += "3"
         return MetaMolecule.from_monomer_seq_linear(ff, [Monomer(resname=n, n_blocks=1) for n in names], "dna")
+    if kind.startswith("json"):
+        # a residue graph given as .json may number its nodes from any integer (node keys are not
+        # residue ids); kind = "json-<first key>" or "json-circular-<first key>"
+        import json as _json
+        first = int(kind.rsplit("-", 1)[1])
+        names = ["D" + c for c in letters]
+        circular = "circular" in kind
+        if len(names) >= 2 and not circular:
+            names[0] += "5"
+            names[-1] += "3"
+        ids = list(range(first, first + len(names)))
+        nodes = [{"id": idx, "resname": name, "resid": num + 1} for num, (idx, name) in enumerate(zip(ids, names))]
+        edges = [{"source": a, "target": b} for a, b in zip(ids[:-1], ids[1:])]
+        if circular:
+            edges.append({"source": ids[0], "target": ids[-1], "linktype": "circle"})
+        data = {"directed": False, "multigraph": False, "graph": {}, "nodes": nodes, "edges": edges, "links": edges}
+        path = os.path.join(tmpdir, "s.json")
+        with open(path, "w") as handle:
+            _json.dump(data, handle)
+        return MetaMolecule.from_sequence_file(ff, pathlib.Path(path), "dna")
     if kind == "fasta":
         path = os.path.join(tmpdir, "s.fasta")
         with open(path, "w") as handle:
@@ -77,12 +97,21 @@ def strand_request(meta):
     names = [meta.nodes[k]["resname"] for k in keys]
     labels = []
     for i in range(n - 1):
-        data = meta.edges[(i, i + 1)] if meta.has_edge(i, i + 1) else {}
+        a, b = keys[i], keys[i + 1]
+        data = meta.edges[(a, b)] if meta.has_edge(a, b) else {}
         labels.append([[str(k), str(v)] for k, v in data.items()])
     circ = None
-    if n >= 3 and meta.has_edge(0, n - 1):
-        circ = [[str(k), str(v)] for k, v in meta.edges[(0, n - 1)].items()]
+    if n >= 3 and meta.has_edge(keys[0], keys[-1]):
+        circ = [[str(k), str(v)] for k, v in meta.edges[(keys[0], keys[-1])].items()]
     return names, labels, circ
+
+
+def shift_graph(cgraph, off):
+    """node keys are arbitrary labels: bring a canonical graph whose keys start at `off` to keys from 0"""
+    if not off:
+        return cgraph
+    return dict(nodes=[[n[0] - off] + list(n[1:]) for n in cgraph["nodes"]],
+                edges=sorted([min(e[0] - off, e[1] - off), max(e[0] - off, e[1] - off), e[2]] for e in cgraph["edges"]))
 
 
 def random_labels(rng, meta):
@@ -106,12 +135,13 @@ def one_case(ctx, kind, letters, label_seed, unknown_at=None):
         key = list(meta.nodes)[unknown_at]
         meta.nodes[key]["resname"] = "XY" + meta.nodes[key]["resname"]
     names, labels, circ = strand_request(meta)
-    before = canon_graph(meta)
-    adj_before = adjacency(meta)
+    off = list(meta.nodes)[0] if len(meta.nodes) else 0
+    before = shift_graph(canon_graph(meta), off)
+    adj_before = {k - off: [x - off for x in v] for k, v in adjacency(meta).items()}
     max_resid = meta.max_resid
     try:
         out = complement_dsDNA(meta)
-        impl = dict(ok=True, graph=canon_graph(out))
+        impl = dict(ok=True, graph=shift_graph(canon_graph(out), off))
     except Exception as err:  # pylint: disable=broad-except
         impl = dict(ok=False, err=type(err).__name__)
     replay = dict(kind=kind, letters=letters, label_seed=label_seed, unknown_at=unknown_at)
@@ -179,12 +209,13 @@ def involution_case(ctx, case):
 
 def gen_cases(ctx):
     rng = ctx.rng
-    kinds = ["fasta", "ig-linear", "ig-circular", "monomers"]
+    kinds = ["fasta", "ig-linear", "ig-circular", "monomers", "json-0", "json-1", "json-7", "json-circular-1",
+             "json-circular-4"]
     cases = []
     # exhaustive small shapes first
     for kind in kinds:
         for n in (1, 2, 3, 4):
-            if kind == "ig-circular" and n < 3:
+            if "circular" in kind and n < 3:
                 continue
             cases.append((kind, "".join(rng.choice(BASES) for _ in range(n)), rng.randint(0, 10 ** 6), None))
     count = ctx.budget(60, 600)
@@ -192,7 +223,7 @@ def gen_cases(ctx):
     for _ in range(count):
         kind = rng.choice(kinds)
         n = rng.choice([rng.randint(3, 12), rng.randint(3, maxlen)]) if rng.random() < 0.8 else rng.randint(1, 3)
-        if kind == "ig-circular" and n < 3:
+        if "circular" in kind and n < 3:
             n = 3
         letters = "".join(rng.choice(BASES) for _ in range(n))
         unknown = rng.randrange(n) if rng.random() < 0.15 else None
